@@ -982,16 +982,19 @@ func init() {
 		directedMono(c)
 		splitFam(c)
 		toggleFam(c)
+		directedStaged(c)
 		independence(c)
 	}
 	concFam := families["conc"]
 	families["conc"] = func(c *ctx) {
 		independence(c)
 		concFam(c)
+		directedStaged(c)
 	}
 
 	// directed material for individual properties
 	families["directed"] = func(c *ctx) {
+		directedStaged(c)
 		switch c.prop {
 		case "C01":
 			directedC01(c)
